@@ -1,0 +1,1454 @@
+//! Verification facade. Only compiled with `--cfg humphrey_verif`; never part of a normal build.
+//!
+//! Drop-in replacements for the parts of `std::sync`, `std::thread`, `std::time` and `std::net`
+//! that Humphrey uses. Every wrapper owns the *real* std primitive. When the calling thread has
+//! no [`rt::Rt`] installed the wrappers are pure pass-throughs. When one is installed (by the
+//! model-checking harness in /verif) each blocking or shared-state operation first reaches a
+//! *scheduling point*: the runtime lets exactly one thread run at a time and records the
+//! decision points, so that a stateless explorer can enumerate schedules. The runtime only
+//! mirrors *enabledness* (is the mutex held, is the queue non-empty, has the thread finished,
+//! are bytes available, has virtual time passed), the real primitive still carries the data.
+#![allow(missing_docs, dead_code, clippy::all)]
+
+pub mod rt {
+    use std::any::Any;
+    use std::cell::RefCell;
+    use std::collections::VecDeque;
+    use std::net::SocketAddr;
+    use std::panic::{catch_unwind, resume_unwind, AssertUnwindSafe};
+    use std::sync::{Arc, Condvar, Mutex as StdMutex};
+
+    /// Payload used to unwind threads that are still blocked when an execution ends.
+    pub struct Abort;
+
+    #[derive(Clone, Debug, PartialEq)]
+    pub enum Want {
+        Run,
+        Lock(usize),
+        RwRead(usize),
+        RwWrite(usize),
+        Recv(usize, Option<u64>),
+        Join(usize),
+        SockRead(usize, usize, Option<u64>),
+        Accept(usize),
+        Sleep(u64),
+    }
+
+    #[derive(Debug)]
+    pub struct Th {
+        pub want: Want,
+        pub finished: bool,
+        pub name: Option<String>,
+    }
+
+    #[derive(Debug, Default)]
+    pub struct Chan {
+        pub queued: usize,
+        pub senders: usize,
+    }
+
+    #[derive(Debug, Clone)]
+    pub struct Point {
+        /// enabled thread ids in canonical order (running thread first if still enabled, then ascending)
+        pub enabled: Vec<usize>,
+        /// index into `enabled`
+        pub chosen: usize,
+        /// the thread that reached the point was itself still enabled (switching away = preemption)
+        pub running_enabled: bool,
+    }
+
+    #[derive(Debug)]
+    pub struct Listener {
+        pub addr: SocketAddr,
+        pub backlog: VecDeque<usize>,
+        pub closed: bool,
+    }
+
+    #[derive(Debug)]
+    pub struct Conn {
+        /// buf[s] = bytes readable by side s (0 = connecting side, 1 = accepting side)
+        pub buf: [VecDeque<u8>; 2],
+        /// side s has closed its write half (shutdown or all handles dropped)
+        pub wclosed: [bool; 2],
+        pub dropped: [bool; 2],
+        pub addr: [SocketAddr; 2],
+        pub nonblocking: [bool; 2],
+        pub rtimeout: [Option<u64>; 2],
+        pub refs: [usize; 2],
+        /// everything side s ever wrote (for oracles)
+        pub written: [Vec<u8>; 2],
+        /// virtual time of each write by side s: (offset into `written`, time)
+        pub wlog: [Vec<(usize, u64)>; 2],
+    }
+
+    pub struct Inner {
+        pub current: usize,
+        pub threads: Vec<Th>,
+        pub mutexes: Vec<bool>,
+        pub rwlocks: Vec<(usize, bool)>,
+        pub chans: Vec<Chan>,
+        pub listeners: Vec<Listener>,
+        pub conns: Vec<Conn>,
+        pub blackholes: Vec<SocketAddr>,
+        /// virtual time in nanoseconds
+        pub now: u64,
+        pub prefix: Vec<usize>,
+        pub points: Vec<Point>,
+        pub aborting: bool,
+        pub deadlock: bool,
+        pub root_done: bool,
+        pub diverged: bool,
+        pub step_cap_hit: bool,
+        pub os_handles: Vec<std::thread::JoinHandle<()>>,
+        pub steps: usize,
+        pub max_steps: usize,
+        pub trace_hash: u64,
+        /// wants of the threads that were still blocked when the execution ended
+        pub blocked_at_end: Vec<(usize, Option<String>, Want)>,
+    }
+
+    pub struct Rt {
+        pub inner: StdMutex<Inner>,
+        pub cv: Condvar,
+    }
+
+    thread_local! {
+        static CUR: RefCell<Option<(Arc<Rt>, usize)>> = RefCell::new(None);
+    }
+
+    pub fn cur() -> Option<(Arc<Rt>, usize)> {
+        CUR.with(|c| c.borrow().clone())
+    }
+
+    pub fn install(rt: Arc<Rt>, tid: usize) {
+        CUR.with(|c| *c.borrow_mut() = Some((rt, tid)));
+    }
+
+    pub fn uninstall() {
+        CUR.with(|c| *c.borrow_mut() = None);
+    }
+
+    pub fn my_tid() -> Option<usize> {
+        CUR.with(|c| c.borrow().as_ref().map(|x| x.1))
+    }
+
+    impl Inner {
+        fn timer(&self, t: usize) -> Option<u64> {
+            let th = &self.threads[t];
+            if th.finished {
+                return None;
+            }
+            match th.want {
+                Want::Recv(_, d) => d,
+                Want::SockRead(_, _, d) => d,
+                Want::Sleep(u) => Some(u),
+                _ => None,
+            }
+        }
+
+        pub fn enabled(&self, t: usize) -> bool {
+            let th = &self.threads[t];
+            if th.finished {
+                return false;
+            }
+            match th.want {
+                Want::Run => true,
+                Want::Lock(m) => !self.mutexes[m],
+                Want::RwRead(l) => !self.rwlocks[l].1,
+                Want::RwWrite(l) => !self.rwlocks[l].1 && self.rwlocks[l].0 == 0,
+                Want::Recv(c, d) => {
+                    self.chans[c].queued > 0
+                        || self.chans[c].senders == 0
+                        || d.map_or(false, |d| self.now >= d)
+                }
+                Want::Join(j) => self.threads[j].finished,
+                Want::SockRead(c, s, d) => {
+                    let k = &self.conns[c];
+                    !k.buf[s].is_empty() || k.wclosed[1 - s] || d.map_or(false, |d| self.now >= d)
+                }
+                Want::Accept(l) => !self.listeners[l].backlog.is_empty() || self.listeners[l].closed,
+                Want::Sleep(u) => self.now >= u,
+            }
+        }
+
+        fn mix(&mut self, a: u64) {
+            self.trace_hash = (self.trace_hash ^ a).wrapping_mul(0x100000001b3);
+        }
+    }
+
+    fn want_code(w: &Want) -> u64 {
+        match w {
+            Want::Run => 1,
+            Want::Lock(a) => 2 + ((*a as u64) << 8),
+            Want::RwRead(a) => 3 + ((*a as u64) << 8),
+            Want::RwWrite(a) => 4 + ((*a as u64) << 8),
+            Want::Recv(a, _) => 5 + ((*a as u64) << 8),
+            Want::Join(a) => 6 + ((*a as u64) << 8),
+            Want::SockRead(a, s, _) => 7 + ((*a as u64) << 8) + ((*s as u64) << 40),
+            Want::Accept(a) => 8 + ((*a as u64) << 8),
+            Want::Sleep(u) => 9 + (u << 8),
+        }
+    }
+
+    impl Rt {
+        fn bail(&self) {
+            if std::thread::panicking() {
+                return;
+            }
+            resume_unwind(Box::new(Abort));
+        }
+
+        /// Scheduling point: thread `me` declares what it wants next; returns when it has been
+        /// scheduled and the want is satisfiable (so the real operation cannot block).
+        pub fn point(&self, me: usize, want: Want) {
+            let mut g = self.inner.lock().unwrap();
+            if g.aborting {
+                drop(g);
+                return self.bail();
+            }
+            let code = want_code(&want);
+            g.mix(((me as u64) << 56) ^ code);
+            g.threads[me].want = want;
+            g.steps += 1;
+            if g.steps > g.max_steps {
+                g.step_cap_hit = true;
+                self.end(&mut g);
+                drop(g);
+                return self.bail();
+            }
+            self.pick(&mut g, me);
+            loop {
+                if g.aborting {
+                    drop(g);
+                    return self.bail();
+                }
+                if g.current == me {
+                    break;
+                }
+                g = self.cv.wait(g).unwrap();
+            }
+            g.threads[me].want = Want::Run;
+        }
+
+        fn end(&self, g: &mut Inner) {
+            if g.aborting {
+                return;
+            }
+            g.blocked_at_end = g
+                .threads
+                .iter()
+                .enumerate()
+                .filter(|(_, t)| !t.finished)
+                .map(|(i, t)| (i, t.name.clone(), t.want.clone()))
+                .collect();
+            g.aborting = true;
+            g.current = usize::MAX;
+            self.cv.notify_all();
+        }
+
+        fn pick(&self, g: &mut Inner, me: usize) {
+            let mut enabled: Vec<usize> = Vec::new();
+            let mut me_enabled;
+            loop {
+                enabled.clear();
+                me_enabled = g.enabled(me);
+                if me_enabled {
+                    enabled.push(me);
+                }
+                for t in 0..g.threads.len() {
+                    if t != me && g.enabled(t) {
+                        enabled.push(t);
+                    }
+                }
+                if !enabled.is_empty() {
+                    break;
+                }
+                // nothing enabled: advance virtual time to the earliest timer, unless the root is done
+                let next = if g.root_done {
+                    None
+                } else {
+                    (0..g.threads.len()).filter_map(|t| g.timer(t)).filter(|&d| d != u64::MAX).min()
+                };
+                match next {
+                    Some(d) if d > g.now => g.now = d,
+                    _ => {
+                        g.deadlock = !g.root_done;
+                        self.end(g);
+                        return;
+                    }
+                }
+            }
+            let idx = if enabled.len() == 1 {
+                0
+            } else {
+                let i = g.points.len();
+                let c = if i < g.prefix.len() { g.prefix[i] } else { 0 };
+                if c >= enabled.len() {
+                    g.diverged = true;
+                    self.end(g);
+                    return;
+                }
+                g.points.push(Point { enabled: enabled.clone(), chosen: c, running_enabled: me_enabled });
+                c
+            };
+            g.current = enabled[idx];
+            let cur = g.current as u64;
+            g.mix(0xabcd ^ (cur << 16));
+            if g.current != me {
+                self.cv.notify_all();
+            }
+        }
+
+        pub fn finish(&self, me: usize) {
+            let mut g = self.inner.lock().unwrap();
+            if g.aborting {
+                return;
+            }
+            g.threads[me].finished = true;
+            if me == 0 {
+                g.root_done = true;
+            }
+            self.pick(&mut g, me);
+        }
+
+        pub fn now(&self) -> u64 {
+            self.inner.lock().unwrap().now
+        }
+
+        /// Runs `f` on the bookkeeping unless the execution is being torn down.
+        pub fn with<R>(&self, f: impl FnOnce(&mut Inner) -> R) -> Option<R> {
+            let mut g = self.inner.lock().unwrap();
+            if g.aborting {
+                None
+            } else {
+                Some(f(&mut g))
+            }
+        }
+    }
+
+    pub struct ExecResult {
+        pub points: Vec<Point>,
+        pub deadlock: bool,
+        pub diverged: bool,
+        pub step_cap_hit: bool,
+        pub blocked_at_end: Vec<(usize, Option<String>, Want)>,
+        pub steps: usize,
+        pub threads: usize,
+        pub now: u64,
+        pub trace_hash: u64,
+        pub root_panic: Option<String>,
+        /// per connection: bytes written by [client side, server side]
+        pub conn_written: Vec<[Vec<u8>; 2]>,
+    }
+
+    /// Runs `body` once as thread 0 under a fresh runtime, following `prefix` at the decision
+    /// points and choice 0 afterwards. All OS threads of the execution are joined before returning.
+    pub fn run_once(prefix: Vec<usize>, max_steps: usize, body: &(dyn Fn() + Sync)) -> ExecResult {
+        let rt = Arc::new(Rt {
+            inner: StdMutex::new(Inner {
+                current: 0,
+                threads: vec![Th { want: Want::Run, finished: false, name: Some("root".into()) }],
+                mutexes: vec![],
+                rwlocks: vec![],
+                chans: vec![],
+                listeners: vec![],
+                conns: vec![],
+                blackholes: vec![],
+                now: 0,
+                prefix,
+                points: vec![],
+                aborting: false,
+                deadlock: false,
+                root_done: false,
+                diverged: false,
+                step_cap_hit: false,
+                os_handles: vec![],
+                steps: 0,
+                max_steps,
+                trace_hash: 0xcbf29ce484222325,
+                blocked_at_end: vec![],
+            }),
+            cv: Condvar::new(),
+        });
+        let rt2 = rt.clone();
+        let root_panic = std::thread::scope(|s| {
+            s.spawn(move || {
+                install(rt2.clone(), 0);
+                let r = catch_unwind(AssertUnwindSafe(|| body()));
+                let out = match r {
+                    Ok(()) => {
+                        rt2.finish(0);
+                        None
+                    }
+                    Err(e) if e.is::<Abort>() => None,
+                    Err(e) => {
+                        let mut g = rt2.inner.lock().unwrap();
+                        rt2.end(&mut g);
+                        Some(panic_text(&e))
+                    }
+                };
+                uninstall();
+                out
+            })
+            .join()
+            .unwrap()
+        });
+        loop {
+            let h = rt.inner.lock().unwrap().os_handles.pop();
+            match h {
+                Some(h) => {
+                    let _ = h.join();
+                }
+                None => break,
+            }
+        }
+        let mut g = rt.inner.lock().unwrap();
+        ExecResult {
+            points: std::mem::take(&mut g.points),
+            deadlock: g.deadlock,
+            diverged: g.diverged,
+            step_cap_hit: g.step_cap_hit,
+            blocked_at_end: std::mem::take(&mut g.blocked_at_end),
+            steps: g.steps,
+            threads: g.threads.len(),
+            now: g.now,
+            trace_hash: g.trace_hash,
+            root_panic,
+            conn_written: g.conns.iter_mut().map(|c| [std::mem::take(&mut c.written[0]), std::mem::take(&mut c.written[1])]).collect(),
+        }
+    }
+
+    pub fn panic_text(e: &Box<dyn Any + Send>) -> String {
+        if let Some(s) = e.downcast_ref::<&str>() {
+            s.to_string()
+        } else if let Some(s) = e.downcast_ref::<String>() {
+            s.clone()
+        } else {
+            "<non-string panic>".to_string()
+        }
+    }
+}
+
+pub mod sync {
+    use super::rt::{cur, Want};
+    use std::sync::{LockResult, PoisonError};
+
+    pub use std::sync::Arc;
+
+    // ---------------- Mutex ----------------
+    pub struct Mutex<T> {
+        id: Option<usize>,
+        inner: std::sync::Mutex<T>,
+    }
+    pub struct MutexGuard<'a, T> {
+        g: Option<std::sync::MutexGuard<'a, T>>,
+        id: Option<usize>,
+    }
+    impl<T> Mutex<T> {
+        pub fn new(t: T) -> Self {
+            let id = cur().and_then(|(rt, _)| {
+                rt.with(|g| {
+                    g.mutexes.push(false);
+                    g.mutexes.len() - 1
+                })
+            });
+            Mutex { id, inner: std::sync::Mutex::new(t) }
+        }
+        pub fn lock(&self) -> LockResult<MutexGuard<'_, T>> {
+            let mut gid = None;
+            if let (Some((rt, me)), Some(id)) = (cur(), self.id) {
+                rt.point(me, Want::Lock(id));
+                if rt.with(|g| g.mutexes[id] = true).is_some() {
+                    gid = Some(id);
+                }
+            }
+            match self.inner.lock() {
+                Ok(g) => Ok(MutexGuard { g: Some(g), id: gid }),
+                Err(p) => Err(PoisonError::new(MutexGuard { g: Some(p.into_inner()), id: gid })),
+            }
+        }
+    }
+    impl<T> std::fmt::Debug for Mutex<T> {
+        fn fmt(&self, f: &mut std::fmt::Formatter<'_>) -> std::fmt::Result {
+            f.write_str("Mutex { .. }")
+        }
+    }
+    impl<T: Default> Default for Mutex<T> {
+        fn default() -> Self {
+            Mutex::new(T::default())
+        }
+    }
+    impl<'a, T> std::ops::Deref for MutexGuard<'a, T> {
+        type Target = T;
+        fn deref(&self) -> &T {
+            self.g.as_ref().unwrap()
+        }
+    }
+    impl<'a, T> std::ops::DerefMut for MutexGuard<'a, T> {
+        fn deref_mut(&mut self) -> &mut T {
+            self.g.as_mut().unwrap()
+        }
+    }
+    impl<'a, T> Drop for MutexGuard<'a, T> {
+        fn drop(&mut self) {
+            self.g.take();
+            if let (Some((rt, _)), Some(id)) = (cur(), self.id) {
+                rt.with(|g| g.mutexes[id] = false);
+            }
+        }
+    }
+
+    // ---------------- RwLock ----------------
+    pub struct RwLock<T> {
+        id: Option<usize>,
+        inner: std::sync::RwLock<T>,
+    }
+    pub struct RwLockReadGuard<'a, T> {
+        g: Option<std::sync::RwLockReadGuard<'a, T>>,
+        id: Option<usize>,
+    }
+    pub struct RwLockWriteGuard<'a, T> {
+        g: Option<std::sync::RwLockWriteGuard<'a, T>>,
+        id: Option<usize>,
+    }
+    impl<T> RwLock<T> {
+        pub fn new(t: T) -> Self {
+            let id = cur().and_then(|(rt, _)| {
+                rt.with(|g| {
+                    g.rwlocks.push((0, false));
+                    g.rwlocks.len() - 1
+                })
+            });
+            RwLock { id, inner: std::sync::RwLock::new(t) }
+        }
+        pub fn read(&self) -> LockResult<RwLockReadGuard<'_, T>> {
+            let mut gid = None;
+            if let (Some((rt, me)), Some(id)) = (cur(), self.id) {
+                rt.point(me, Want::RwRead(id));
+                if rt.with(|g| g.rwlocks[id].0 += 1).is_some() {
+                    gid = Some(id);
+                }
+            }
+            match self.inner.read() {
+                Ok(g) => Ok(RwLockReadGuard { g: Some(g), id: gid }),
+                Err(p) => Err(PoisonError::new(RwLockReadGuard { g: Some(p.into_inner()), id: gid })),
+            }
+        }
+        pub fn write(&self) -> LockResult<RwLockWriteGuard<'_, T>> {
+            let mut gid = None;
+            if let (Some((rt, me)), Some(id)) = (cur(), self.id) {
+                rt.point(me, Want::RwWrite(id));
+                if rt.with(|g| g.rwlocks[id].1 = true).is_some() {
+                    gid = Some(id);
+                }
+            }
+            match self.inner.write() {
+                Ok(g) => Ok(RwLockWriteGuard { g: Some(g), id: gid }),
+                Err(p) => Err(PoisonError::new(RwLockWriteGuard { g: Some(p.into_inner()), id: gid })),
+            }
+        }
+    }
+    impl<'a, T> std::ops::Deref for RwLockReadGuard<'a, T> {
+        type Target = T;
+        fn deref(&self) -> &T {
+            self.g.as_ref().unwrap()
+        }
+    }
+    impl<'a, T> Drop for RwLockReadGuard<'a, T> {
+        fn drop(&mut self) {
+            self.g.take();
+            if let (Some((rt, _)), Some(id)) = (cur(), self.id) {
+                rt.with(|g| g.rwlocks[id].0 -= 1);
+            }
+        }
+    }
+    impl<'a, T> std::ops::Deref for RwLockWriteGuard<'a, T> {
+        type Target = T;
+        fn deref(&self) -> &T {
+            self.g.as_ref().unwrap()
+        }
+    }
+    impl<'a, T> std::ops::DerefMut for RwLockWriteGuard<'a, T> {
+        fn deref_mut(&mut self) -> &mut T {
+            self.g.as_mut().unwrap()
+        }
+    }
+    impl<'a, T> Drop for RwLockWriteGuard<'a, T> {
+        fn drop(&mut self) {
+            self.g.take();
+            if let (Some((rt, _)), Some(id)) = (cur(), self.id) {
+                rt.with(|g| g.rwlocks[id].1 = false);
+            }
+        }
+    }
+
+    // ---------------- atomic ----------------
+    pub mod atomic {
+        use super::super::rt::{cur, Want};
+        pub use std::sync::atomic::Ordering;
+        pub struct AtomicBool(std::sync::atomic::AtomicBool);
+        impl AtomicBool {
+            pub fn new(b: bool) -> Self {
+                AtomicBool(std::sync::atomic::AtomicBool::new(b))
+            }
+            pub fn load(&self, o: Ordering) -> bool {
+                if let Some((rt, me)) = cur() {
+                    rt.point(me, Want::Run);
+                }
+                self.0.load(o)
+            }
+            pub fn store(&self, v: bool, o: Ordering) {
+                if let Some((rt, me)) = cur() {
+                    rt.point(me, Want::Run);
+                }
+                self.0.store(v, o)
+            }
+        }
+    }
+
+    // ---------------- mpsc ----------------
+    pub mod mpsc {
+        use super::super::rt::{cur, Want};
+        pub use std::sync::mpsc::{RecvError, RecvTimeoutError, SendError, TryRecvError};
+        use std::time::Duration;
+
+        pub struct Sender<T> {
+            id: Option<usize>,
+            s: std::sync::mpsc::Sender<T>,
+        }
+        pub struct Receiver<T> {
+            id: Option<usize>,
+            r: std::sync::mpsc::Receiver<T>,
+        }
+        pub fn channel<T>() -> (Sender<T>, Receiver<T>) {
+            let (s, r) = std::sync::mpsc::channel();
+            let id = cur().and_then(|(rt, _)| {
+                rt.with(|g| {
+                    g.chans.push(super::super::rt::Chan { queued: 0, senders: 1 });
+                    g.chans.len() - 1
+                })
+            });
+            (Sender { id, s }, Receiver { id, r })
+        }
+        impl<T> Sender<T> {
+            pub fn send(&self, t: T) -> Result<(), SendError<T>> {
+                if let (Some((rt, me)), Some(id)) = (cur(), self.id) {
+                    rt.point(me, Want::Run);
+                    let r = self.s.send(t);
+                    if r.is_ok() {
+                        rt.with(|g| g.chans[id].queued += 1);
+                    }
+                    r
+                } else {
+                    self.s.send(t)
+                }
+            }
+        }
+        impl<T> Clone for Sender<T> {
+            fn clone(&self) -> Self {
+                if let (Some((rt, _)), Some(id)) = (cur(), self.id) {
+                    rt.with(|g| g.chans[id].senders += 1);
+                }
+                Sender { id: self.id, s: self.s.clone() }
+            }
+        }
+        impl<T> Drop for Sender<T> {
+            fn drop(&mut self) {
+                if let (Some((rt, _)), Some(id)) = (cur(), self.id) {
+                    rt.with(|g| g.chans[id].senders -= 1);
+                }
+            }
+        }
+        impl<T> Receiver<T> {
+            pub fn recv(&self) -> Result<T, RecvError> {
+                if let (Some((rt, me)), Some(id)) = (cur(), self.id) {
+                    rt.point(me, Want::Recv(id, None));
+                    match rt.with(|g| {
+                        if g.chans[id].queued > 0 {
+                            g.chans[id].queued -= 1;
+                            true
+                        } else {
+                            false
+                        }
+                    }) {
+                        Some(true) => Ok(self.r.try_recv().expect("verif: channel mirror out of sync")),
+                        _ => Err(RecvError),
+                    }
+                } else {
+                    self.r.recv()
+                }
+            }
+            pub fn recv_timeout(&self, d: Duration) -> Result<T, RecvTimeoutError> {
+                if let (Some((rt, me)), Some(id)) = (cur(), self.id) {
+                    let deadline = rt.now().saturating_add(d.as_nanos() as u64);
+                    rt.point(me, Want::Recv(id, Some(deadline)));
+                    match rt.with(|g| {
+                        if g.chans[id].queued > 0 {
+                            g.chans[id].queued -= 1;
+                            0
+                        } else if g.chans[id].senders == 0 {
+                            1
+                        } else {
+                            2
+                        }
+                    }) {
+                        Some(0) => Ok(self.r.try_recv().expect("verif: channel mirror out of sync")),
+                        Some(2) => Err(RecvTimeoutError::Timeout),
+                        _ => Err(RecvTimeoutError::Disconnected),
+                    }
+                } else {
+                    self.r.recv_timeout(d)
+                }
+            }
+            pub fn try_recv(&self) -> Result<T, TryRecvError> {
+                if let (Some((rt, me)), Some(id)) = (cur(), self.id) {
+                    rt.point(me, Want::Run);
+                    let r = self.r.try_recv();
+                    if r.is_ok() {
+                        rt.with(|g| g.chans[id].queued -= 1);
+                    }
+                    r
+                } else {
+                    self.r.try_recv()
+                }
+            }
+            pub fn iter(&self) -> Iter<'_, T> {
+                Iter { r: self }
+            }
+            pub fn try_iter(&self) -> TryIter<'_, T> {
+                TryIter { r: self }
+            }
+        }
+        pub struct TryIter<'a, T> {
+            r: &'a Receiver<T>,
+        }
+        impl<'a, T> Iterator for TryIter<'a, T> {
+            type Item = T;
+            fn next(&mut self) -> Option<T> {
+                self.r.try_recv().ok()
+            }
+        }
+        pub struct Iter<'a, T> {
+            r: &'a Receiver<T>,
+        }
+        impl<'a, T> Iterator for Iter<'a, T> {
+            type Item = T;
+            fn next(&mut self) -> Option<T> {
+                self.r.recv().ok()
+            }
+        }
+        impl<'a, T> IntoIterator for &'a Receiver<T> {
+            type Item = T;
+            type IntoIter = Iter<'a, T>;
+            fn into_iter(self) -> Iter<'a, T> {
+                self.iter()
+            }
+        }
+    }
+}
+
+pub mod thread {
+    use super::rt::{self, cur, Abort, Th, Want};
+    use std::panic::{catch_unwind, AssertUnwindSafe};
+    use std::sync::{Arc, Mutex as StdMutex};
+    use std::time::Duration;
+
+    pub use std::thread::{current, panicking};
+
+    pub fn sleep(d: Duration) {
+        if let Some((rt, me)) = cur() {
+            let until = rt.now().saturating_add(d.as_nanos() as u64);
+            rt.point(me, Want::Sleep(until));
+        } else {
+            std::thread::sleep(d)
+        }
+    }
+
+    pub fn park_timeout(d: Duration) {
+        if cur().is_some() {
+            sleep(d)
+        } else {
+            std::thread::park_timeout(d)
+        }
+    }
+
+    pub struct JoinHandle<T> {
+        tid: Option<usize>,
+        h: Option<std::thread::JoinHandle<()>>,
+        res: Arc<StdMutex<Option<std::thread::Result<T>>>>,
+    }
+
+    pub struct Builder {
+        name: Option<String>,
+    }
+
+    impl Builder {
+        pub fn new() -> Self {
+            Builder { name: None }
+        }
+        pub fn name(mut self, n: String) -> Self {
+            self.name = Some(n);
+            self
+        }
+        pub fn spawn<F, T>(self, f: F) -> std::io::Result<JoinHandle<T>>
+        where
+            F: FnOnce() -> T + Send + 'static,
+            T: Send + 'static,
+        {
+            Ok(spawn_named(self.name, f))
+        }
+    }
+
+    pub fn spawn<F, T>(f: F) -> JoinHandle<T>
+    where
+        F: FnOnce() -> T + Send + 'static,
+        T: Send + 'static,
+    {
+        spawn_named(None, f)
+    }
+
+    fn spawn_named<F, T>(name: Option<String>, f: F) -> JoinHandle<T>
+    where
+        F: FnOnce() -> T + Send + 'static,
+        T: Send + 'static,
+    {
+        let res = Arc::new(StdMutex::new(None));
+        let res2 = res.clone();
+        let mut b = std::thread::Builder::new();
+        if let Some(n) = &name {
+            b = b.name(n.clone());
+        }
+        if let Some((rt, me)) = cur() {
+            rt.point(me, Want::Run);
+            let tid = rt.with(|g| {
+                g.threads.push(Th { want: Want::Run, finished: false, name: name.clone() });
+                g.threads.len() - 1
+            });
+            let tid = match tid {
+                Some(t) => t,
+                None => {
+                    // execution is being torn down: never start the thread
+                    return JoinHandle { tid: None, h: None, res };
+                }
+            };
+            let rt2 = rt.clone();
+            let h = b
+                .spawn(move || {
+                    rt::install(rt2.clone(), tid);
+                    {
+                        let mut g = rt2.inner.lock().unwrap();
+                        while g.current != tid && !g.aborting {
+                            g = rt2.cv.wait(g).unwrap();
+                        }
+                        if g.aborting {
+                            drop(g);
+                            // drop the closure (and everything it owns) as an unwinding thread would
+                            let _ = catch_unwind(AssertUnwindSafe(move || drop(f)));
+                            rt::uninstall();
+                            return;
+                        }
+                    }
+                    let r = catch_unwind(AssertUnwindSafe(f));
+                    let aborted = matches!(&r, Err(e) if e.is::<Abort>());
+                    if !aborted {
+                        *res2.lock().unwrap() = Some(r);
+                        rt2.finish(tid);
+                    }
+                    rt::uninstall();
+                })
+                .expect("verif: OS thread could not be spawned");
+            rt.inner.lock().unwrap().os_handles.push(h);
+            JoinHandle { tid: Some(tid), h: None, res }
+        } else {
+            let h = b
+                .spawn(move || {
+                    let r = catch_unwind(AssertUnwindSafe(f));
+                    *res2.lock().unwrap() = Some(r);
+                })
+                .expect("OS thread could not be spawned");
+            JoinHandle { tid: None, h: Some(h), res }
+        }
+    }
+
+    impl<T> JoinHandle<T> {
+        pub fn join(mut self) -> std::thread::Result<T> {
+            if let (Some((rt, me)), Some(tid)) = (cur(), self.tid) {
+                rt.point(me, Want::Join(tid));
+            } else if let Some(h) = self.h.take() {
+                let _ = h.join();
+            }
+            match self.res.lock().unwrap().take() {
+                Some(r) => r,
+                None => Err(Box::new(Abort)),
+            }
+        }
+        pub fn verif_tid(&self) -> Option<usize> {
+            self.tid
+        }
+    }
+}
+
+pub mod time {
+    use super::rt::cur;
+    use std::cell::Cell;
+    pub use std::time::Duration;
+
+    thread_local! {
+        /// Virtual wall clock (seconds since the epoch) for single-threaded explorations that do
+        /// not run under the scheduler.
+        static VCLOCK: Cell<Option<u64>> = Cell::new(None);
+    }
+
+    pub fn set_virtual_clock(secs: Option<u64>) {
+        VCLOCK.with(|c| c.set(secs));
+    }
+
+    /// Base of the virtual wall clock under the scheduler: 2001-09-09T01:46:40Z.
+    pub const VIRTUAL_EPOCH_SECS: u64 = 1_000_000_000;
+
+    fn virtual_now_ns() -> Option<u64> {
+        if let Some((rt, _)) = cur() {
+            return Some(rt.now());
+        }
+        None
+    }
+
+    #[derive(Clone, Copy, Debug)]
+    pub struct Instant {
+        real: std::time::Instant,
+        virt: Option<u64>,
+    }
+    impl Instant {
+        pub fn now() -> Self {
+            Instant { real: std::time::Instant::now(), virt: virtual_now_ns() }
+        }
+        pub fn elapsed(&self) -> Duration {
+            match (self.virt, virtual_now_ns()) {
+                (Some(v), Some(n)) => Duration::from_nanos(n.saturating_sub(v)),
+                _ => self.real.elapsed(),
+            }
+        }
+        pub fn duration_since(&self, earlier: Instant) -> Duration {
+            match (self.virt, earlier.virt) {
+                (Some(a), Some(b)) => Duration::from_nanos(a.saturating_sub(b)),
+                _ => self.real.duration_since(earlier.real),
+            }
+        }
+    }
+
+    #[derive(Clone, Copy, Debug, PartialEq, Eq, PartialOrd, Ord)]
+    pub struct SystemTime(std::time::SystemTime);
+    impl SystemTime {
+        pub const UNIX_EPOCH: SystemTime = SystemTime(std::time::SystemTime::UNIX_EPOCH);
+        pub fn now() -> Self {
+            if let Some(ns) = virtual_now_ns() {
+                return SystemTime(
+                    std::time::SystemTime::UNIX_EPOCH + Duration::from_secs(VIRTUAL_EPOCH_SECS) + Duration::from_nanos(ns),
+                );
+            }
+            if let Some(s) = VCLOCK.with(|c| c.get()) {
+                return SystemTime(std::time::SystemTime::UNIX_EPOCH + Duration::from_secs(s));
+            }
+            SystemTime(std::time::SystemTime::now())
+        }
+        pub fn duration_since(&self, earlier: SystemTime) -> Result<Duration, std::time::SystemTimeError> {
+            self.0.duration_since(earlier.0)
+        }
+    }
+}
+
+pub mod net {
+    use super::rt::{cur, Conn, Listener, Rt, Want};
+    use std::collections::VecDeque;
+    use std::io::{Error, ErrorKind, Read, Result, Write};
+    use std::net::{Shutdown, SocketAddr, ToSocketAddrs};
+    use std::sync::{Arc, Mutex as StdMutex};
+    use std::time::Duration;
+
+    // ---------------- scripted socket (single-threaded explorations) ----------------
+    #[derive(Clone, Debug, PartialEq)]
+    pub enum Step {
+        /// a TCP segment: bytes that become readable together
+        Seg(Vec<u8>),
+        /// nothing arrives before the read timeout (skipped if no timeout is set)
+        Timeout,
+        /// nothing has arrived yet (only visible to non-blocking reads)
+        Pending,
+        /// the peer closed its write half
+        Eof,
+        /// the connection was reset
+        Reset,
+    }
+
+    #[derive(Debug)]
+    pub struct ScriptSock {
+        pub steps: VecDeque<Step>,
+        pub cur: VecDeque<u8>,
+        pub out: Vec<u8>,
+        pub peer: SocketAddr,
+        pub read_timeout: Option<Duration>,
+        pub nonblocking: bool,
+        pub eof: bool,
+        pub shutdown: bool,
+        pub dropped: bool,
+        pub reads: usize,
+        pub reads_after_eof: usize,
+        pub timeouts_fired: usize,
+        /// offsets into `out` at which a read was issued: lets oracles see what had been written
+        /// before each step was consumed
+        pub out_len_at_read: Vec<usize>,
+        /// fail writes once this many bytes have been written
+        pub write_fail_after: Option<usize>,
+    }
+
+    impl ScriptSock {
+        pub fn new(peer: SocketAddr, steps: Vec<Step>) -> Arc<StdMutex<ScriptSock>> {
+            Arc::new(StdMutex::new(ScriptSock {
+                steps: steps.into(),
+                cur: VecDeque::new(),
+                out: vec![],
+                peer,
+                read_timeout: None,
+                nonblocking: false,
+                eof: false,
+                shutdown: false,
+                dropped: false,
+                reads: 0,
+                reads_after_eof: 0,
+                timeouts_fired: 0,
+                out_len_at_read: vec![],
+                write_fail_after: None,
+            }))
+        }
+        fn read(&mut self, buf: &mut [u8]) -> Result<usize> {
+            self.reads += 1;
+            self.out_len_at_read.push(self.out.len());
+            if buf.is_empty() {
+                return Ok(0);
+            }
+            loop {
+                if !self.cur.is_empty() {
+                    let n = buf.len().min(self.cur.len());
+                    for b in buf.iter_mut().take(n) {
+                        *b = self.cur.pop_front().unwrap();
+                    }
+                    return Ok(n);
+                }
+                if self.eof {
+                    self.reads_after_eof += 1;
+                    if self.reads_after_eof > 100_000 {
+                        panic!("verif: more than 100000 reads after end of stream (reader does not terminate)");
+                    }
+                    return Ok(0);
+                }
+                match self.steps.pop_front() {
+                    Some(Step::Seg(b)) => self.cur = b.into(),
+                    Some(Step::Timeout) => {
+                        if self.read_timeout.is_some() && !self.nonblocking {
+                            self.timeouts_fired += 1;
+                            return Err(Error::new(ErrorKind::WouldBlock, "verif: read timed out"));
+                        }
+                    }
+                    Some(Step::Pending) => {
+                        if self.nonblocking {
+                            return Err(Error::new(ErrorKind::WouldBlock, "verif: would block"));
+                        }
+                    }
+                    Some(Step::Eof) | None => self.eof = true,
+                    Some(Step::Reset) => {
+                        self.eof = true;
+                        return Err(Error::new(ErrorKind::ConnectionReset, "verif: connection reset"));
+                    }
+                }
+            }
+        }
+    }
+
+    // ---------------- scheduler-simulated socket ----------------
+    pub struct SimEnd {
+        rt: Arc<Rt>,
+        pub conn: usize,
+        pub side: usize,
+    }
+
+    impl Drop for SimEnd {
+        fn drop(&mut self) {
+            let (c, s) = (self.conn, self.side);
+            self.rt.with(|g| {
+                g.conns[c].refs[s] -= 1;
+                if g.conns[c].refs[s] == 0 {
+                    g.conns[c].dropped[s] = true;
+                    g.conns[c].wclosed[s] = true;
+                }
+            });
+        }
+    }
+
+    pub enum TcpStream {
+        Real(std::net::TcpStream),
+        Sim(SimEnd),
+        Script(Arc<StdMutex<ScriptSock>>),
+    }
+
+    impl Drop for TcpStream {
+        fn drop(&mut self) {
+            if let TcpStream::Script(s) = self {
+                s.lock().unwrap().dropped = true;
+            }
+        }
+    }
+
+    fn sim_connect(rt: &Arc<Rt>, me: usize, from: Option<SocketAddr>, to: SocketAddr, timeout: Option<Duration>) -> Result<TcpStream> {
+        rt.point(me, Want::Run);
+        let black = rt.with(|g| g.blackholes.contains(&to)).unwrap_or(false);
+        if black {
+            let until = match timeout {
+                Some(d) => rt.now().saturating_add(d.as_nanos() as u64),
+                None => u64::MAX,
+            };
+            rt.point(me, Want::Sleep(until));
+            return Err(Error::new(ErrorKind::TimedOut, "verif: connect timed out"));
+        }
+        let r = rt.with(|g| {
+            let l = g.listeners.iter().position(|l| {
+                !l.closed && l.addr.port() == to.port() && (l.addr.ip() == to.ip() || (l.addr.ip().is_unspecified() && l.addr.is_ipv4() == to.is_ipv4()))
+            })?;
+            let id = g.conns.len();
+            let from = from.unwrap_or_else(|| {
+                if to.is_ipv4() {
+                    SocketAddr::from(([127, 0, 0, 1], 40000 + id as u16))
+                } else {
+                    SocketAddr::from((std::net::Ipv6Addr::LOCALHOST, 40000 + id as u16))
+                }
+            });
+            g.conns.push(Conn {
+                buf: [VecDeque::new(), VecDeque::new()],
+                wclosed: [false, false],
+                dropped: [false, false],
+                addr: [from, to],
+                nonblocking: [false, false],
+                rtimeout: [None, None],
+                refs: [1, 1],
+                written: [vec![], vec![]],
+                wlog: [vec![], vec![]],
+            });
+            g.listeners[l].backlog.push_back(id);
+            Some(id)
+        });
+        match r {
+            Some(Some(id)) => Ok(TcpStream::Sim(SimEnd { rt: rt.clone(), conn: id, side: 0 })),
+            Some(None) => Err(Error::new(ErrorKind::ConnectionRefused, "verif: connection refused")),
+            None => Err(Error::new(ErrorKind::Other, "verif: execution ended")),
+        }
+    }
+
+    impl TcpStream {
+        pub fn connect<A: ToSocketAddrs>(addr: A) -> Result<TcpStream> {
+            if let Some((rt, me)) = cur() {
+                let mut last = Error::new(ErrorKind::InvalidInput, "could not resolve to any addresses");
+                for a in addr.to_socket_addrs()? {
+                    match sim_connect(&rt, me, None, a, None) {
+                        Ok(s) => return Ok(s),
+                        Err(e) => last = e,
+                    }
+                }
+                Err(last)
+            } else {
+                std::net::TcpStream::connect(addr).map(TcpStream::Real)
+            }
+        }
+        pub fn connect_timeout(addr: &SocketAddr, timeout: Duration) -> Result<TcpStream> {
+            if let Some((rt, me)) = cur() {
+                sim_connect(&rt, me, None, *addr, Some(timeout))
+            } else {
+                std::net::TcpStream::connect_timeout(addr, timeout).map(TcpStream::Real)
+            }
+        }
+        /// Harness only: connect with a chosen source address.
+        pub fn verif_connect_from(from: SocketAddr, to: SocketAddr) -> Result<TcpStream> {
+            let (rt, me) = cur().expect("verif_connect_from needs a runtime");
+            sim_connect(&rt, me, Some(from), to, None)
+        }
+        pub fn peer_addr(&self) -> Result<SocketAddr> {
+            match self {
+                TcpStream::Real(s) => s.peer_addr(),
+                TcpStream::Sim(e) => e.rt.with(|g| g.conns[e.conn].addr[1 - e.side]).ok_or_else(|| Error::new(ErrorKind::NotConnected, "verif: execution ended")),
+                TcpStream::Script(s) => Ok(s.lock().unwrap().peer),
+            }
+        }
+        pub fn local_addr(&self) -> Result<SocketAddr> {
+            match self {
+                TcpStream::Real(s) => s.local_addr(),
+                TcpStream::Sim(e) => e.rt.with(|g| g.conns[e.conn].addr[e.side]).ok_or_else(|| Error::new(ErrorKind::NotConnected, "verif: execution ended")),
+                TcpStream::Script(_) => Ok(SocketAddr::from(([127, 0, 0, 1], 80))),
+            }
+        }
+        pub fn shutdown(&self, how: Shutdown) -> Result<()> {
+            match self {
+                TcpStream::Real(s) => s.shutdown(how),
+                TcpStream::Sim(e) => {
+                    e.rt.with(|g| {
+                        let k = &mut g.conns[e.conn];
+                        if how != Shutdown::Read {
+                            k.wclosed[e.side] = true;
+                        }
+                        if how != Shutdown::Write {
+                            // our reads now see EOF: model as the peer's write half being closed to us
+                            k.buf[e.side].clear();
+                        }
+                    });
+                    Ok(())
+                }
+                TcpStream::Script(s) => {
+                    s.lock().unwrap().shutdown = true;
+                    Ok(())
+                }
+            }
+        }
+        pub fn set_read_timeout(&self, d: Option<Duration>) -> Result<()> {
+            match self {
+                TcpStream::Real(s) => s.set_read_timeout(d),
+                TcpStream::Sim(e) => {
+                    e.rt.with(|g| g.conns[e.conn].rtimeout[e.side] = d.map(|d| d.as_nanos() as u64));
+                    Ok(())
+                }
+                TcpStream::Script(s) => {
+                    s.lock().unwrap().read_timeout = d;
+                    Ok(())
+                }
+            }
+        }
+        pub fn set_write_timeout(&self, d: Option<Duration>) -> Result<()> {
+            match self {
+                TcpStream::Real(s) => s.set_write_timeout(d),
+                _ => Ok(()),
+            }
+        }
+        pub fn set_nonblocking(&self, nb: bool) -> Result<()> {
+            match self {
+                TcpStream::Real(s) => s.set_nonblocking(nb),
+                TcpStream::Sim(e) => {
+                    e.rt.with(|g| g.conns[e.conn].nonblocking[e.side] = nb);
+                    Ok(())
+                }
+                TcpStream::Script(s) => {
+                    s.lock().unwrap().nonblocking = nb;
+                    Ok(())
+                }
+            }
+        }
+        pub fn try_clone(&self) -> Result<TcpStream> {
+            match self {
+                TcpStream::Real(s) => s.try_clone().map(TcpStream::Real),
+                TcpStream::Sim(e) => {
+                    e.rt.with(|g| g.conns[e.conn].refs[e.side] += 1);
+                    Ok(TcpStream::Sim(SimEnd { rt: e.rt.clone(), conn: e.conn, side: e.side }))
+                }
+                TcpStream::Script(s) => Ok(TcpStream::Script(s.clone())),
+            }
+        }
+    }
+
+    fn sim_read(e: &SimEnd, buf: &mut [u8]) -> Result<usize> {
+        let (nb, to) = match e.rt.with(|g| (g.conns[e.conn].nonblocking[e.side], g.conns[e.conn].rtimeout[e.side])) {
+            Some(x) => x,
+            None => return Err(Error::new(ErrorKind::Other, "verif: execution ended")),
+        };
+        if let Some((rt, me)) = cur() {
+            if nb {
+                rt.point(me, Want::Run);
+            } else {
+                let deadline = to.map(|t| rt.now().saturating_add(t));
+                rt.point(me, Want::SockRead(e.conn, e.side, deadline));
+            }
+        }
+        let r = e.rt.with(|g| {
+            let k = &mut g.conns[e.conn];
+            if k.buf[e.side].is_empty() {
+                if k.wclosed[1 - e.side] {
+                    return Ok(0);
+                }
+                return Err(Error::new(ErrorKind::WouldBlock, "verif: no data (would block / timed out)"));
+            }
+            let n = buf.len().min(k.buf[e.side].len());
+            for b in buf.iter_mut().take(n) {
+                *b = k.buf[e.side].pop_front().unwrap();
+            }
+            Ok(n)
+        });
+        r.unwrap_or_else(|| Err(Error::new(ErrorKind::Other, "verif: execution ended")))
+    }
+
+    fn sim_write(e: &SimEnd, buf: &[u8]) -> Result<usize> {
+        if let Some((rt, me)) = cur() {
+            rt.point(me, Want::Run);
+        }
+        let r = e.rt.with(|g| {
+            let now = g.now;
+            let k = &mut g.conns[e.conn];
+            if k.wclosed[e.side] {
+                return Err(Error::new(ErrorKind::BrokenPipe, "verif: write half closed"));
+            }
+            if k.dropped[1 - e.side] {
+                return Err(Error::new(ErrorKind::BrokenPipe, "verif: peer closed"));
+            }
+            let off = k.written[e.side].len();
+            k.wlog[e.side].push((off, now));
+            k.written[e.side].extend_from_slice(buf);
+            k.buf[1 - e.side].extend(buf.iter().copied());
+            Ok(buf.len())
+        });
+        // writes during tear-down are swallowed
+        r.unwrap_or(Ok(buf.len()))
+    }
+
+    impl Read for TcpStream {
+        fn read(&mut self, buf: &mut [u8]) -> Result<usize> {
+            match self {
+                TcpStream::Real(s) => s.read(buf),
+                TcpStream::Sim(e) => sim_read(e, buf),
+                TcpStream::Script(s) => s.lock().unwrap().read(buf),
+            }
+        }
+    }
+    impl Read for &TcpStream {
+        fn read(&mut self, buf: &mut [u8]) -> Result<usize> {
+            match self {
+                TcpStream::Real(s) => (&*s).read(buf),
+                TcpStream::Sim(e) => sim_read(e, buf),
+                TcpStream::Script(s) => s.lock().unwrap().read(buf),
+            }
+        }
+    }
+    fn script_write(s: &Arc<StdMutex<ScriptSock>>, buf: &[u8]) -> Result<usize> {
+        let mut g = s.lock().unwrap();
+        if let Some(lim) = g.write_fail_after {
+            if g.out.len() >= lim {
+                return Err(Error::new(ErrorKind::BrokenPipe, "verif: scripted write failure"));
+            }
+        }
+        g.out.extend_from_slice(buf);
+        Ok(buf.len())
+    }
+    impl Write for TcpStream {
+        fn write(&mut self, buf: &[u8]) -> Result<usize> {
+            match self {
+                TcpStream::Real(s) => s.write(buf),
+                TcpStream::Sim(e) => sim_write(e, buf),
+                TcpStream::Script(s) => script_write(s, buf),
+            }
+        }
+        fn flush(&mut self) -> Result<()> {
+            match self {
+                TcpStream::Real(s) => s.flush(),
+                _ => Ok(()),
+            }
+        }
+    }
+    impl Write for &TcpStream {
+        fn write(&mut self, buf: &[u8]) -> Result<usize> {
+            match self {
+                TcpStream::Real(s) => (&*s).write(buf),
+                TcpStream::Sim(e) => sim_write(e, buf),
+                TcpStream::Script(s) => script_write(s, buf),
+            }
+        }
+        fn flush(&mut self) -> Result<()> {
+            Ok(())
+        }
+    }
+
+    // ---------------- listener ----------------
+    pub struct SimListener {
+        rt: Arc<Rt>,
+        pub id: usize,
+    }
+    impl Drop for SimListener {
+        fn drop(&mut self) {
+            let id = self.id;
+            self.rt.with(|g| {
+                g.listeners[id].closed = true;
+                let pending: Vec<usize> = g.listeners[id].backlog.drain(..).collect();
+                for c in pending {
+                    g.conns[c].dropped[1] = true;
+                    g.conns[c].wclosed[1] = true;
+                }
+            });
+        }
+    }
+    pub enum TcpListener {
+        Real(std::net::TcpListener),
+        Sim(SimListener),
+    }
+    pub struct Incoming<'a> {
+        l: &'a TcpListener,
+    }
+    impl<'a> Iterator for Incoming<'a> {
+        type Item = Result<TcpStream>;
+        fn next(&mut self) -> Option<Result<TcpStream>> {
+            Some(self.l.accept().map(|p| p.0))
+        }
+    }
+    impl TcpListener {
+        pub fn bind<A: ToSocketAddrs>(addr: A) -> Result<TcpListener> {
+            if let Some((rt, me)) = cur() {
+                let a = addr.to_socket_addrs()?.next().ok_or_else(|| Error::new(ErrorKind::InvalidInput, "no address"))?;
+                rt.point(me, Want::Run);
+                let r = rt.with(|g| {
+                    let clash = g.listeners.iter().any(|l| {
+                        !l.closed && l.addr.port() == a.port() && l.addr.is_ipv4() == a.is_ipv4() && (l.addr.ip() == a.ip() || l.addr.ip().is_unspecified() || a.ip().is_unspecified())
+                    });
+                    if clash {
+                        return None;
+                    }
+                    g.listeners.push(Listener { addr: a, backlog: VecDeque::new(), closed: false });
+                    Some(g.listeners.len() - 1)
+                });
+                match r {
+                    Some(Some(id)) => Ok(TcpListener::Sim(SimListener { rt: rt.clone(), id })),
+                    _ => Err(Error::new(ErrorKind::AddrInUse, "verif: address in use")),
+                }
+            } else {
+                std::net::TcpListener::bind(addr).map(TcpListener::Real)
+            }
+        }
+        pub fn accept(&self) -> Result<(TcpStream, SocketAddr)> {
+            match self {
+                TcpListener::Real(l) => l.accept().map(|(s, a)| (TcpStream::Real(s), a)),
+                TcpListener::Sim(l) => {
+                    if let Some((rt, me)) = cur() {
+                        rt.point(me, Want::Accept(l.id));
+                    }
+                    let r = l.rt.with(|g| {
+                        let c = g.listeners[l.id].backlog.pop_front()?;
+                        Some((c, g.conns[c].addr[0]))
+                    });
+                    match r {
+                        Some(Some((c, a))) => Ok((TcpStream::Sim(SimEnd { rt: l.rt.clone(), conn: c, side: 1 }), a)),
+                        _ => Err(Error::new(ErrorKind::Other, "verif: listener closed")),
+                    }
+                }
+            }
+        }
+        pub fn incoming(&self) -> Incoming<'_> {
+            Incoming { l: self }
+        }
+        pub fn local_addr(&self) -> Result<SocketAddr> {
+            match self {
+                TcpListener::Real(l) => l.local_addr(),
+                TcpListener::Sim(l) => l.rt.with(|g| g.listeners[l.id].addr).ok_or_else(|| Error::new(ErrorKind::Other, "verif: execution ended")),
+            }
+        }
+    }
+
+    /// Harness only: make connects to `addr` hang until their timeout.
+    pub fn verif_blackhole(addr: SocketAddr) {
+        if let Some((rt, _)) = cur() {
+            rt.with(|g| g.blackholes.push(addr));
+        }
+    }
+    /// Harness only: is some open listener bound to this port?
+    pub fn verif_port_bound(port: u16) -> bool {
+        cur().and_then(|(rt, _)| rt.with(|g| g.listeners.iter().any(|l| !l.closed && l.addr.port() == port))).unwrap_or(false)
+    }
+}
